@@ -379,8 +379,19 @@ end
 
 def beforePushdown (t : Node) : Node := fuseFilters (fuseMaps (elimFalse (elimTrue (elimIdMaps t))))
 
-/-- some round of `optimize` pushes a filter into the right join input past a key column -/
-def optPushUnsafe (t : Node) : Bool :=
-  (List.range 10).any (fun j => pushUnsafe (beforePushdown (iter applyAll j t)))
+/-- no round among the next `n` rounds of `apply_all_rules` takes the defective push-down branch -/
+def optSafe : Nat → Node → Bool
+  | 0, _ => true
+  | n + 1, t => !pushUnsafe (beforePushdown t) && optSafe n (applyAll t)
 
+/-- some round of `optimize` pushes a filter into the right join input past a key column -/
+def optPushUnsafe (t : Node) : Bool := !optSafe 10 t
+
+end ILV.IR
+
+namespace ILV.IR
+/-- the part of `IQLEngine::optimize_ir` (lib.rs:925) that has a Lean model: optional Boolean
+    specialisation followed by the always-on basic optimizer. -/
+def pipe (bs : Bool) (t : Node) : Node := optimize (if bs then (specialize t).1 else t)
+def pipeSem (bs : Bool) (t : Node) : Semiring := if bs then (specialize t).2 else .counting
 end ILV.IR
